@@ -4,6 +4,13 @@ pub mod message;
 
 mod msm_mappings;
 
+// Verification hook (guard: cfg(kani), set only by the Kani compiler): compiles a harness file that
+// lives outside this repository as a child of `crate::msg`, so it can name crate-private items.
+#[cfg(kani)]
+mod verif_harness {
+    include!(env!("RTCM_VERIF_HARNESS"));
+}
+
 pub use msm_mappings::bds::SigId as BdsSigId;
 pub use msm_mappings::gal::SigId as GalSigId;
 pub use msm_mappings::glo::SigId as GloSigId;
